@@ -121,6 +121,36 @@ def promotion_pairs(path):
     return sorted(pairs)
 
 
+_PROMO_PROBE = r"""
+import json
+import fastavro._read_py as R
+NAMES = ["null", "boolean", "int", "long", "float", "double", "bytes", "string"]
+out = []
+for w in NAMES:
+    for r in NAMES:
+        if w == r:
+            continue
+        try:
+            ok = R.match_types(w, r, {"writer": {}, "reader": {}})
+        except TypeError:
+            ok = R.match_types(w, r)
+        if ok:
+            out.append([w, r])
+print(json.dumps(out))
+"""
+
+
+def promotion_pairs_dynamic(repo):
+    """the promotions `match_types` accepts, tabulated by RUNNING it (child interpreter on /repo's current source) on
+    every ordered pair of distinct primitive type names — robust against refactorings of its if-chain"""
+    import json
+    import subprocess
+    env = dict(os.environ, PYTHONPATH=repo)
+    pr = subprocess.run([sys.executable, "-c", _PROMO_PROBE], env=env, capture_output=True, timeout=60, cwd="/")
+    rows = json.loads(pr.stdout.decode())
+    return sorted((a, b) for a, b in rows)
+
+
 class _Probe:
     """stands for `data` while `maybe_promote` is run over its finite decision domain"""
     def __init__(self):
@@ -212,6 +242,58 @@ def appendable_table(path):
                             out.append((seekable, pos != 0, name == "<stdout>", readable, o))
             return out
     return []
+
+
+_RANGE_PROBE = r"""
+import json, sys
+import fastavro.utils as U
+calls = []
+class Rec:
+    def __init__(self, real):
+        self._real = real
+    def randint(self, a, b):
+        calls.append((a, b))
+        return a
+    def __getattr__(self, name):
+        return getattr(self._real, name)
+U.random = Rec(U.random)
+LOG = ["date", "time-millis", "time-micros", "timestamp-millis", "timestamp-micros", "local-timestamp-millis", "local-timestamp-micros"]
+MATCH = {("int", "date"), ("int", "time-millis"), ("long", "time-micros"), ("long", "timestamp-millis"), ("long", "timestamp-micros"),
+         ("long", "local-timestamp-millis"), ("long", "local-timestamp-micros")}
+out = []
+for T in ("int", "long"):
+    for L in [""] + LOG:
+        schema = {"type": T} if not L else {"type": T, "logicalType": L}
+        del calls[:]
+        try:
+            U.gen_data(schema, {})
+        except TypeError:
+            try:
+                U.gen_data(schema, {}, 0)
+            except Exception:
+                continue
+        except Exception:
+            continue
+        # an annotation that does not belong to the type is ignored: the draw must be a plain draw of the type
+        key = (T + "-" + L) if (T, L) in MATCH else ""
+        for a, b in calls:
+            out.append([T, key, a, b])
+print(json.dumps(out))
+"""
+
+
+def generation_ranges_dynamic(repo):
+    """the integer ranges `gen_data` draws from, tabulated by RUNNING it (in a child interpreter on /repo's current
+    source, `random.randint` replaced by a recorder) on int / long with every logical annotation — robust against
+    refactorings of gen_data, unlike reading the ranges off its syntax tree"""
+    import json
+    import subprocess
+    env = dict(os.environ, PYTHONPATH=repo)
+    pr = subprocess.run([sys.executable, "-c", _RANGE_PROBE], env=env, capture_output=True, timeout=60, cwd="/")
+    rows = json.loads(pr.stdout.decode())
+    if not rows:
+        raise Unsupported("no ranges recorded")
+    return sorted({(r[0], r[1], int(r[2]), int(r[3])) for r in rows}, key=lambda x: (x[0], x[1], x[2], x[3]))
 
 
 def generation_ranges(repo):
@@ -341,9 +423,12 @@ def render(repo):
     out.append("]\n")
     rp = os.path.join(fa, "_read_py.py")
     try:
-        pairs = promotion_pairs(rp)
+        pairs = promotion_pairs_dynamic(repo)
     except Exception:
-        pairs = []
+        try:
+            pairs = promotion_pairs(rp)
+        except Exception:
+            pairs = []
     try:
         pops = promote_ops(rp)
     except Exception:
@@ -363,9 +448,12 @@ def render(repo):
     out.append(",\n".join("  (%s, %s, %s, %s, %s)" % tuple(["true" if x else "false" for x in row[:4]] + [lean_str(row[4])]) for row in at))
     out.append("]\n")
     try:
-        gr = generation_ranges(repo)
+        gr = generation_ranges_dynamic(repo)
     except Exception:
-        gr = []
+        try:
+            gr = generation_ranges(repo)
+        except Exception:
+            gr = []
     out.append("/-- (type, logical type, low, high) of every `random.randint` of `gen_data`; an unevaluable bound is rendered as an empty range -/")
     out.append("def genRanges : List (String × String × Int × Int) := [")
     out.append(",\n".join("  (%s, %s, %d, %d)" % (lean_str(a), lean_str(b), (c if c is not None else 1), (d if d is not None else 0))
